@@ -2520,6 +2520,8 @@ const C17_FULL_LINES: u64 = 4_000;
 enum VEdit {
     MarkDirty(usize),
     SetStyle(usize, Style),
+    /// re-parent node .0 below node .1 (appended); .2 = through `set_children` (true) or `remove_child` + `add_child`
+    Move(usize, usize, bool),
 }
 
 fn gen_vedits(r: &mut Rng, d: &TreeDesc) -> Vec<VEdit> {
@@ -2534,7 +2536,28 @@ fn gen_vedits(r: &mut Rng, d: &TreeDesc) -> Vec<VEdit> {
     collect(d, &mut styles);
     let k = 1 + r.below(3);
     let cfg = GenCfg::all();
-    (0..k)
+    // at most one structural edit, first (later edits address nodes by their original preorder index)
+    let mut first = vec![];
+    if n >= 3 && r.chance(1, 3) {
+        fn sizes(d: &TreeDesc, out: &mut Vec<usize>) {
+            let i = out.len();
+            out.push(0);
+            for c in &d.children {
+                sizes(c, out);
+            }
+            out[i] = out.len() - i;
+        }
+        let mut sz = vec![];
+        sizes(d, &mut sz);
+        let c = 1 + r.below(n - 1);
+        let cands: Vec<usize> = (0..n).filter(|&p| p < c || p >= c + sz[c]).collect();
+        if !cands.is_empty() {
+            first.push(VEdit::Move(c, *r.pick(&cands), r.chance(1, 2)));
+        }
+    }
+    first
+        .into_iter()
+        .chain((0..k)
         .map(|_| {
             let i = r.below(n);
             match r.below(5) {
@@ -2552,12 +2575,18 @@ fn gen_vedits(r: &mut Rng, d: &TreeDesc) -> Vec<VEdit> {
                     VEdit::SetStyle(i, st)
                 }
             }
-        })
+        }))
         .collect()
 }
 
 /// TaffyTree: layout, the edits through the public mutators, layout again
 fn taffy_relayout(d: &TreeDesc, a1: Size<AvailableSpace>, a2: Size<AvailableSpace>, rounding: bool, edits: &[VEdit]) -> Result<LL, String> {
+    taffy_relayout_with(d, a1, a2, rounding, edits, false)
+}
+
+/// `dirty_up`: the neutraliser of the known finding "attach under a clean hidden node" — after a move, mark every ancestor
+/// of the new parent dirty one by one (`mark_dirty` itself stops at the first empty cache)
+fn taffy_relayout_with(d: &TreeDesc, a1: Size<AvailableSpace>, a2: Size<AvailableSpace>, rounding: bool, edits: &[VEdit], dirty_up: bool) -> Result<LL, String> {
     let (mut t, root) = layout_fresh(d, a1, rounding)?;
     catch(move || {
         let mut ids = vec![];
@@ -2566,10 +2595,29 @@ fn taffy_relayout(d: &TreeDesc, a1: Size<AvailableSpace>, a2: Size<AvailableSpac
             match e {
                 VEdit::MarkDirty(i) => t.mark_dirty(ids[*i]).unwrap(),
                 VEdit::SetStyle(i, s) => t.set_style(ids[*i], s.clone()).unwrap(),
+                VEdit::Move(c, p, true) => {
+                    let mut ks = t.children(ids[*p]).unwrap();
+                    ks.retain(|x| *x != ids[*c]);
+                    ks.push(ids[*c]);
+                    t.set_children(ids[*p], &ks).unwrap();
+                }
+                VEdit::Move(c, p, false) => {
+                    let old = t.parent(ids[*c]).unwrap();
+                    t.remove_child(old, ids[*c]).unwrap();
+                    t.add_child(ids[*p], ids[*c]).unwrap();
+                }
+            }
+            if let (true, VEdit::Move(_, p, _)) = (dirty_up, e) {
+                let mut cur = Some(ids[*p]);
+                while let Some(n) = cur {
+                    t.mark_dirty(n).unwrap();
+                    cur = t.parent(n);
+                }
             }
         }
         t.compute_layout_with_measure(root, a2, |k, a, _id, ctx, _style| measure(k, a, ctx)).unwrap();
-        (all_layouts(&t, root, true), all_layouts(&t, root, false))
+        // by node (original preorder index), not by the preorder of the edited tree
+        (ids.iter().map(|id| *t.unrounded_layout(*id)).collect(), ids.iter().map(|id| *t.layout(*id).unwrap()).collect())
     })
 }
 
@@ -2587,17 +2635,28 @@ fn vtree_relayout(d: &TreeDesc, a1: Size<AvailableSpace>, a2: Size<AvailableSpac
             }
         }
         for e in edits {
-            let i = match e {
-                VEdit::MarkDirty(i) => *i,
+            let mut dirty = vec![];
+            match e {
+                VEdit::MarkDirty(i) => dirty.push(*i),
                 VEdit::SetStyle(i, s) => {
                     t.nodes[*i].style = s.clone();
-                    *i
+                    dirty.push(*i);
                 }
-            };
-            let mut cur = i;
-            while cur != usize::MAX {
-                t.nodes[cur].cache.clear();
-                cur = parent[cur];
+                VEdit::Move(c, p, _) => {
+                    let old = parent[*c];
+                    t.nodes[old].children.retain(|x| x != c);
+                    t.nodes[*p].children.push(*c);
+                    parent[*c] = *p;
+                    dirty.push(old);
+                    dirty.push(*p);
+                }
+            }
+            for i in dirty {
+                let mut cur = i;
+                while cur != usize::MAX {
+                    t.nodes[cur].cache.clear();
+                    cur = parent[cur];
+                }
             }
         }
         t.compute_layout(root, a2, rounding);
@@ -2612,6 +2671,8 @@ fn vedits_brief(es: &[VEdit]) -> String {
         .map(|e| match e {
             VEdit::MarkDirty(i) => format!("mark_dirty(n{i})"),
             VEdit::SetStyle(i, s) => format!("set_style(n{i}, {})", style_brief(s)),
+            VEdit::Move(c, p, true) => format!("set_children(n{p}, children(n{p}) + [n{c}])"),
+            VEdit::Move(c, p, false) => format!("remove_child(parent(n{c}), n{c}); add_child(n{p}, n{c})"),
         })
         .collect::<Vec<_>>()
         .join("; ")
@@ -2674,6 +2735,8 @@ pub fn run_c17(cfg: &Cfg, out: &mut Out) -> String {
                     VEdit::MarkDirty(_) => "relayout-edit:mark_dirty",
                     VEdit::SetStyle(_, s) if s.display == Display::None => "relayout-edit:hide",
                     VEdit::SetStyle(..) => "relayout-edit:set_style",
+                    VEdit::Move(_, _, true) => "relayout-edit:move-by-set_children",
+                    VEdit::Move(..) => "relayout-edit:move-by-remove+add",
                 });
             }
             match (&tr, &vr) {
@@ -2685,12 +2748,18 @@ pub fn run_c17(cfg: &Cfg, out: &mut Out) -> String {
                         // empty cache: with the known lossy key / stale-layout findings the two dirty sets can give different
                         // layouts. Neutralisers: exact keys, then exact keys + quiet hits.
                         let agree = |m: Mode| matches!(both(m), (Ok(x), Ok(y)) if ll_eq(&x, &y));
+                        let attach_neutralised = edits.iter().any(|e| matches!(e, VEdit::Move(..))) && {
+                            let _g = ModeGuard::set(Mode::Quiet);
+                            matches!((taffy_relayout_with(&d, avail, a2, rounding, &edits, true), vtree_relayout(&d, avail, a2, rounding, &edits)), (Ok(x), Ok(y)) if ll_eq(&x, &y))
+                        };
                         let sig = if agree(Mode::Exact) {
                             lossy += 1;
                             "c17-lossy-cache-key"
                         } else if agree(Mode::Quiet) {
                             stale += 1;
                             "c17-stale-layout-after-compute-size"
+                        } else if attach_neutralised {
+                            "c17-attach-under-clean-hidden"
                         } else {
                             relayout_diff += 1;
                             "c17-drivers-differ-after-edit"
